@@ -655,9 +655,11 @@ mutual
 inductive Value
   | leaf (t : Tag) (p : Prim)
   | cont (t : Tag) (k : Kind) (cs : Values)
+deriving DecidableEq
 inductive Values
   | nil
   | cons (v : Value) (vs : Values)
+deriving DecidableEq
 end
 
 mutual
@@ -710,6 +712,15 @@ def Values.toList : Values → List Value
 
 /-! ## Tree decoding with the public accessors (what the harness does with the real code) -/
 
+/-- decode every item of an element iteration with `f`, stopping at the first error -/
+def decodeSeq (f : Bytes → Res Value) : List (Res Bytes) → Res Values
+  | [] => pure .nil
+  | r :: rest => do
+    let e ← r
+    let c ← f e
+    let cs ← decodeSeq f rest
+    pure (.cons c cs)
+
 /-- decode one element into a tree: `tag()`, `value()`, and for containers `container()?.iter()`
 recursively; `d` caps the recursion depth (`Err.depth`). -/
 def decodeTree : Nat → Bytes → Res Value
@@ -722,16 +733,8 @@ def decodeTree : Nat → Bytes → Res Value
     | .endCnt => .err .invalidData
     | .cont k => do
       let seq ← containerOf bs
-      let rec go : List (Res Bytes) → Res Values
-        | [] => pure .nil
-        | r :: rest => do
-          let e ← r
-          let c ← decodeTree d e
-          let cs ← go rest
-          pure (.cons c cs)
-      let kids ← go (elements seq)
+      let kids ← decodeSeq (decodeTree d) (elements seq)
       pure (.cont t k kids)
-
 
 /-! ## `TLVSequenceTLVIter` (`TLVSequence::tlv_iter`, after the fix) -/
 
@@ -780,6 +783,14 @@ def TVal.payload : TVal → Bytes
 also emits the 8-byte-length strings) -/
 def tlvBytes (x : Tag × TVal) : Bytes := header x.1 x.2.vt ++ x.2.payload
 
+/-- bytes of a TLV iteration, stopping at the first error -/
+def tlvConcat : List (Res (Tag × TVal)) → Res Bytes
+  | [] => pure []
+  | r :: rest => do
+    let x ← r
+    let tl ← tlvConcat rest
+    pure (tlvBytes x ++ tl)
+
 /-- `elem.tlv_iter(elem.tag()?)` flattened through `TLV::bytes_iter`, stopping at the first error
 (`TLVElementTLVIter`: the element's own TLV, then `container()?.tlv_iter()`, then `EndCnt`) -/
 def reencodeIter (bs : Bytes) : Res Bytes :=
@@ -788,13 +799,7 @@ def reencodeIter (bs : Bytes) : Res Bytes :=
     let v ← valueOf bs
     match containerOf bs with
     | .ok seq => do
-      let rec go : List (Res (Tag × TVal)) → Res Bytes
-        | [] => pure []
-        | r :: rest => do
-          let x ← r
-          let tl ← go rest
-          pure (tlvBytes x ++ tl)
-      let inner ← go (tlvElements seq)
+      let inner ← tlvConcat (tlvElements seq)
       pure (tlvBytes (t, v) ++ inner ++ [endByte])
     | _ => pure (tlvBytes (t, v))
 
